@@ -299,7 +299,7 @@ Fixpoint list_eqb (a b : list Z) : bool :=
 
 (** body of the inner loop for the pair (i, j), i < j.
     [strict = false]: the pinned source — "no off-diagonal count" makes j a duplicate of i.
-    [strict = true]: the source with the proposed fix notes/proposed_fixes/C15-1.diff — j is a
+    [strict = true]: the source after the fix (notes/proposed_fixes/C15-1.diff, committed to /repo as fa2362385) — j is a
     duplicate only if (s1 == s2).all(); a no-difference pair with total > 0 is stored as
     Stats(total, 0.0, 0.0, 0.0); otherwise the calculator's function decides.
     The driver selects the variant from the current source text. *)
